@@ -296,6 +296,13 @@ pub trait Check: Sync {
             Tier::Thorough => 1800,
         }
     }
+    /// Allocation-fault seam: address-space limit (MiB) under which the processes that run this
+    /// check's scenarios (workers, isolated re-evaluations, replays) execute. An allocation
+    /// whose size derives from an attacker-controlled field then FAILS (Rust aborts), instead of
+    /// being silently over-committed by the kernel. None = no limit.
+    fn address_space_limit_mib(&self) -> Option<u64> {
+        None
+    }
     /// The only place where randomness is consumed.
     fn generate(&self, seed: u64, index: u64, tier: Tier) -> Value;
     /// Pure function of the scenario.
